@@ -177,6 +177,7 @@ def run_program(world, calls, order, preemptions, mp_mode=False, keep_dir=False,
     if source_reads:
         s.ctx.extra_read_roots = [os.path.realpath(world.run.src), world.run.src]
     s.expire_timed_waits = expire_timed
+    s.max_steps = sched.MAX_STEPS + 4 * sum(len(b) for b in list(world.contents) + list(getattr(world, "docs", []) or []))
     s.ctx.list_order = list_order
     if extra_on_op is not None:
         s.extra_on_op = extra_on_op() if isinstance(extra_on_op, type) or getattr(extra_on_op, "is_factory", False) else extra_on_op
